@@ -15,6 +15,7 @@ package main
 import (
 	"encoding/json"
 	"fmt"
+	"math"
 	"math/rand"
 	"os"
 	"strconv"
@@ -56,6 +57,52 @@ func shape(n *AvlNode, parent *AvlNode, depth int) vh.M {
 	}
 	return vh.M{"nil": false, "v": n.Value, "b": n.Balance, "pok": n.Parent == parent, "del": n.Deleted,
 		"l": shape(n.Left, n, depth+1), "r": shape(n.Right, n, depth+1)}
+}
+
+// order-preserving key map: the contract depends only on the order of the keys, so the same
+// case must hold when the model keys are embedded into the extremes of the int range
+var toReal = func(k int) int { return k }
+var toModel = func(r int) (int, bool) { return r, true }
+
+func installExtremeKeys(minkey, maxkey int) {
+	n := maxkey - minkey + 1
+	real := make([]int, n)
+	back := map[int]int{}
+	for i := 0; i < n; i++ {
+		switch {
+		case i == 0:
+			real[i] = math.MinInt64
+		case i == n-1:
+			real[i] = math.MaxInt64
+		default:
+			real[i] = (i - n/2) << 40
+			if i == n/2 {
+				real[i] = -2 // small keys next to huge ones
+			}
+		}
+		back[real[i]] = minkey + i
+	}
+	toReal = func(k int) int { return real[k-minkey] }
+	toModel = func(r int) (int, bool) { k, ok := back[r]; return k, ok }
+}
+
+func modelShape(n *AvlNode, parent *AvlNode, depth int) vh.M {
+	m := shape(n, parent, depth)
+	var fix func(x vh.M)
+	fix = func(x vh.M) {
+		if x["nil"] == true {
+			return
+		}
+		if k, ok := toModel(x["v"].(int)); ok {
+			x["v"] = k
+		} else {
+			x["v"] = 1 << 30 // a key that was never inserted: the structural check fails on it
+		}
+		fix(x["l"].(vh.M))
+		fix(x["r"].(vh.M))
+	}
+	fix(m)
+	return m
 }
 
 func shapeOf(t *AvlTree) vh.M {
@@ -106,6 +153,10 @@ func replay(args []string) {
 	}
 	minkey, _ := strconv.Atoi(args[3])
 	maxkey, _ := strconv.Atoi(args[4])
+	extreme := len(args) > 5 && args[5] == "extreme"
+	if extreme {
+		installExtremeKeys(minkey, maxkey)
+	}
 	out := vh.NewOut(args[1])
 	defer out.Close()
 	shapes := map[string]bool{}
@@ -139,14 +190,14 @@ func replay(args []string) {
 			msg := vh.Try(func() {
 				switch st.A {
 				case "ins":
-					ret = t.Insert(st.K)
+					ret = t.Insert(toReal(st.K))
 				case "del":
-					ret = t.Delete(st.K)
+					ret = t.Delete(toReal(st.K))
 				case "iter":
 					its[st.J] = t.Iterator()
 					ret = true
 				case "from":
-					its[st.J] = t.IteratorFrom(st.K)
+					its[st.J] = t.IteratorFrom(toReal(st.K))
 					ret = true
 				case "next":
 					its[st.J].Next()
@@ -164,12 +215,28 @@ func replay(args []string) {
 		{
 			// every state of the model's graph is the post-state of some case, so
 			// recording the shape after the last call covers every reachable shape
-			sh := shapeOf(t)
+			sh := modelShape(t.Root, nil, 0)
 			b, _ := json.Marshal(sh)
 			if !shapes[string(b)] {
 				shapes[string(b)] = true
 				shout.Put(vh.M{"shape": sh, "hist": c.Hist})
 			}
+		}
+		// probes one below / above the universe only make sense for the identity key map
+		lo, hi := minkey-1, maxkey+1
+		if extreme {
+			lo, hi = minkey, maxkey
+		}
+		mapBack := func(rs []int) []int {
+			r := make([]int, len(rs))
+			for i, x := range rs {
+				if k, ok := toModel(x); ok {
+					r[i] = k
+				} else {
+					r[i] = 1 << 30
+				}
+			}
+			return r
 		}
 		// 1. return value of the last call
 		if c.Hist[last].A == "ins" || c.Hist[last].A == "del" {
@@ -185,20 +252,21 @@ func replay(args []string) {
 			inS[k] = true
 		}
 		msg := vh.Try(func() {
-			for k := minkey - 1; k <= maxkey+1; k++ {
-				nd := t.FindNode(k)
-				if (nd != nil) != inS[k] || (nd != nil && nd.Value != k) {
+			for k := lo; k <= hi; k++ {
+				nd := t.FindNode(toReal(k))
+				if (nd != nil) != inS[k] || (nd != nil && nd.Value != toReal(k)) {
 					report("membership", last, vh.M{"key": k, "member": inS[k]}, vh.M{"found": nd != nil})
 					return
 				}
 			}
 			got, fin := iterate(t, 4*(maxkey-minkey+3))
+			got = mapBack(got)
 			if !fin || !eqInts(got, want) {
 				report("iteration", last, want, got)
 				return
 			}
 			// iteration from every lower bound
-			for k := minkey - 1; k <= maxkey+1; k++ {
+			for k := lo; k <= hi; k++ {
 				exp := []int{}
 				for _, x := range want {
 					if x >= k {
@@ -207,10 +275,11 @@ func replay(args []string) {
 				}
 				g := []int{}
 				n := 0
-				for it := t.IteratorFrom(k); it.Ok() && n < 4*(maxkey-minkey+3); it.Next() {
+				for it := t.IteratorFrom(toReal(k)); it.Ok() && n < 4*(maxkey-minkey+3); it.Next() {
 					g = append(g, it.Get())
 					n++
 				}
+				g = mapBack(g)
 				if !eqInts(g, exp) {
 					report("iteration_from", last, vh.M{"from": k, "seq": exp}, g)
 					return
@@ -230,7 +299,7 @@ func replay(args []string) {
 					report("iter_ok", last, io, vh.M{"ok": it.Ok(), "get": it.Get()})
 					return
 				}
-				if it.Ok() && inS[io.Cur] && it.Get() != io.Cur {
+				if it.Ok() && inS[io.Cur] && it.Get() != toReal(io.Cur) {
 					report("iter_get", last, io, vh.M{"ok": it.Ok(), "get": it.Get()})
 					return
 				}
